@@ -454,6 +454,7 @@ def templates() -> Dict[str, Any]:
     reg("VDEF", 1, lambda i: [{}, {f"d{i}": 9}], lambda i: [P("VALUE", f"d{i}", dop="u8", default=7)])
     reg("VTT", 1, lambda i: [{f"t{i}": "off"}, {f"t{i}": "auto"}], lambda i: [P("VALUE", f"t{i}", dop="tt")])
     reg("RES8", 1, lambda i: [{}], lambda i: [P("RESERVED", f"r{i}", bits=8)])
+    reg("RES72", 9, lambda i: [{}], lambda i: [P("RESERVED", f"rw{i}", bits=72)])  # wider than any integer the bit packer extracts in one piece
     reg("RES4", 1, lambda i: [{}], lambda i: [P("RESERVED", f"rh{i}", bits=4, bit=4)])
     reg("V8b4", 2, lambda i: [{f"vb{i}": 0}, {f"vb{i}": 0xA5}, {f"vb{i}": 255}], lambda i: [P("VALUE", f"vb{i}", dop="u8b4", bit=4)])
     reg("VF32", 4, lambda i: [{f"vf{i}": 1.5}, {f"vf{i}": 100.0}, {f"vf{i}": 0.0}], lambda i: [P("VALUE", f"vf{i}", dop="f32lim")])
@@ -529,7 +530,7 @@ def templates() -> Dict[str, Any]:
 
 
 SIGMA_FULL = ["CC8", "CC16L", "CCNIB", "PC", "V8", "V12b", "V8b4", "VF32", "SLK", "VLIN", "VDEF", "VTT", "RES8", "RES4", "SYS", "LK", "TKS", "TKSROW", "SFLAT",
-              "SSUB", "SNEST", "SSIZED", "SF2", "SF2p", "DL1", "DL2", "EOP", "EMLAST", "EMCC", "MUXd", "MUXn", "MUXe", "MUXf", "SDYN", "EOPD", "DLD", "EMD", "MUXD", "EOPDE", "EOPLK", "SKB2", "SKB4", "VLDEF", "DTC", "DTCENV", "BZ", "BEOP", "LEAD", "SFV", "EMT", "EMTC", "TKS2", "CCMM", "LKSAME"]
+              "SSUB", "SNEST", "SSIZED", "SF2", "SF2p", "DL1", "DL2", "EOP", "EMLAST", "EMCC", "MUXd", "MUXn", "MUXe", "MUXf", "SDYN", "EOPD", "DLD", "EMD", "MUXD", "EOPDE", "EOPLK", "SKB2", "SKB4", "VLDEF", "DTC", "DTCENV", "BZ", "BEOP", "LEAD", "SFV", "EMT", "EMTC", "TKS2", "CCMM", "LKSAME", "RES72"]
 SIGMA_3 = ["CC8", "V8", "V12b", "V8b4", "VDEF", "RES8", "LK", "TKS", "SFLAT", "SSIZED", "SF2p", "DL1", "EOP", "MUXd", "DTCENV", "BZ", "SDYN", "EOPD"]
 SIGMA_4 = ["CC8", "V12b", "SSIZED", "DL1", "MUXd", "BZ"]
 MODES = ["auto", "at", "hole"]
